@@ -22,7 +22,7 @@ import (
 	"github.com/flamego/flamego/verifharness/internal/rt"
 )
 
-const rule = "case = a handler stack: 0..3 application middleware, 0..3 nested groups (some declared with the empty path) with 0..2 handlers each, 1..3 route handlers and an optional final action; now and then 240..300 silent middleware in front of everything (a long chain); each handler is a straight-line program of 0..4 operations over {write a status, write body bytes (Write or io.Copy; the underlying writer with or without io.ReaderFrom), Next(), Next() under a recover, cancel the request context (directly, through a derived context installed on the request, or by a deadline that has passed), install a live derived context on the request, re-register http.ResponseWriter with a wrapping flamego writer, panic (rarely)} plus an optional return value (non-empty string, empty string, nil error, non-nil error); the request may arrive with a context that is cancelled already; the route is declared with Any or with Get under AutoHead; the request is served twice on the same instance, and optionally a third time after Handlers() was called with no arguments (compared with an instance that never had middleware). " +
+const rule = "case = a handler stack: 0..3 application middleware, 0..3 nested groups (some declared with the empty path) with 0..2 handlers each (two times in five the same stack of group paths is opened once more, before or after, with handlers and a route of its own), 1..3 route handlers and an optional final action; now and then 240..300 silent middleware in front of everything (a long chain); each handler is a straight-line program of 0..4 operations over {write a status, write body bytes (Write or io.Copy; the underlying writer with or without io.ReaderFrom), Next(), Next() under a recover, cancel the request context (directly, through a derived context installed on the request, or by a deadline that has passed), install a live derived context on the request, re-register http.ResponseWriter with a wrapping flamego writer, panic (rarely)} plus an optional return value (non-empty string, empty string, nil error, non-nil error); the request may arrive with a context that is cancelled already; the route is declared with Any or with Get under AutoHead; the request is served twice on the same instance, and optionally a third time after Handlers() was called with no arguments (compared with an instance that never had middleware). " +
 	"Oracle: the trace of enter/next/back/exit events, final status and body must equal those of a cursor interpreter written from the statement (cursor = next handler not yet started); plus model-free invariants on the real trace: handlers are entered as 0,1,2,... without gap or repetition, and enter/exit events nest like calls. " +
 	"non-trivial = a program with a Next() issued after a write or cancel, or >=2 Next() in one handler, or a write inside a handler reached through Next(), or a chain that reaches a nil action, or a panic crossing a recovering Next(); distinct by case text"
 
@@ -63,6 +63,11 @@ type Case struct {
 	// test: their handlers must never show up in its chain.
 	SiblingsBefore int `json:"siblings_before,omitempty"`
 	SiblingsAfter  int `json:"siblings_after,omitempty"`
+	// TwinGroups (with groups): the same stack of group paths is opened another
+	// time - "before" or "after" the one under test - with one handler of its own
+	// per group and a route of its own inside (an open and a guarded part of one
+	// API): none of those handlers belongs to the chain of the route under test.
+	TwinGroups string `json:"group_stack_opened_twice,omitempty"`
 	// ReaderFrom: the writer handed to ServeHTTP also implements io.ReaderFrom,
 	// as the one of net/http does.
 	ReaderFrom bool `json:"reader_from,omitempty"`
@@ -414,7 +419,25 @@ func realFrom(c Case, base int) (res result) {
 		}
 		f.Group(c.groupPath(depth), func() { register(depth + 1) }, ghs[depth]...)
 	}
+	twin := func() {
+		var reg func(depth int)
+		reg = func(depth int) {
+			if depth == len(ghs) {
+				f.Any("/twin-route", func(ctx flamego.Context) { ev("enter %d", 3000); ev("exit %d", 3000) })
+				return
+			}
+			d := depth
+			f.Group(c.groupPath(depth), func() { reg(depth + 1) }, func(ctx flamego.Context) { ev("enter %d", 2000+d); ev("exit %d", 2000+d) })
+		}
+		reg(0)
+	}
+	if c.TwinGroups == "before" && len(ghs) > 0 {
+		twin()
+	}
 	register(0)
+	if c.TwinGroups == "after" && len(ghs) > 0 {
+		twin()
+	}
 	if c.Action != nil {
 		f.Action(mk(*c.Action))
 	}
@@ -794,6 +817,9 @@ func genCase(t *rapid.T) Case {
 	c.Method = []string{"GET", "GET", "HEAD"}[rapid.IntRange(0, 2).Draw(t, "method")]
 	c.SiblingsBefore = rapid.IntRange(0, 2).Draw(t, "sibbefore")
 	c.SiblingsAfter = rapid.IntRange(0, 2).Draw(t, "sibafter")
+	if len(c.Groups) > 0 {
+		c.TwinGroups = []string{"", "", "", "before", "after"}[rapid.IntRange(0, 4).Draw(t, "twingroups")]
+	}
 	c.ReaderFrom = rapid.Bool().Draw(t, "readerfrom")
 	c.Wrapper = rapid.IntRange(0, 3).Draw(t, "wrapper") == 0
 	c.AutoHeadGet = rapid.IntRange(0, 3).Draw(t, "autoheadget") == 0
